@@ -1,8 +1,11 @@
 import PyElf.Driver.Json
 import PyElf.Spec.CFI
+import PyElf.Spec.CFIEhSetLoc
 import PyElf.Model.CallFrame
+import PyElf.Model.CallFrameFile
 import PyElf.Model.Env
 import PyElf.Gen.Extra_C06
+import PyElf.Gen.Extra_C11
 open Lean
 namespace PyElf.Driver.C06
 open PyElf PyElf.Spec
@@ -127,9 +130,53 @@ def runModel (eh le : Bool) (asz : Nat) (address : Int) (data : Bytes) (size : N
   let C := mkCfi eh le asz address data
   resJson (fun es => Json.arr (es.map fun e => (Model.Entry.toVal C.T e).toJson).toArray) (Model.parseEntries C size)
 
+/-! ### whole files: `ELFFile(BytesIO(data)).get_dwarf_info(…)` then the CFI accessors -/
+
+/-- the container model with the REGENERATED bundles / tables; zlib is a table sent with the request (an
+    oracle miss is answered with bytes the library never produces); no link is followed to a file, so the
+    CRC is never asked -/
+def fileParams (zl : List (Bytes × Nat × Option Bytes)) : Model.C11.Params :=
+  { env := Model.elfEnv, structsFor := Model.elfStructsFor, machineClassOf := Model.machineClassOf,
+    machineArchOf := Model.Reloc.machineArchOf, dwarfStructsFor := Model.dwarfStructsFor,
+    names := Gen.c11SectionNames,
+    X := { decompress := fun d k =>
+             match zl.find? (fun e => e.2.1 == k && e.1 == d) with
+             | some e => e.2.2
+             | none => some "ORACLE-MISS".toUTF8.toList,
+           crc32 := fun _ => 0 } }
+
+def vRes {α} (f : α → Json) : Model.C11.V α → Json
+  | .ok v => Json.mkObj [("ok", f v)]
+  | .error e => Json.mkObj [("err", Json.str e.name)]
+
+def entriesJson (es : List Model.Entry) : Json :=
+  Json.arr (es.map fun e => (Model.Entry.toVal Gen.cfiTables e).toJson).toArray
+
 def handle (req : Json) : Except String Json := do
   let k ← jStr req "k"
   match k with
+  | "file" =>
+    let data ← jHex req "hex"
+    let zl ← (← jArr req "zlib").mapM fun j => do
+      match j with
+      | .arr #[.str d, kk, out] =>
+        let some d := Bytes.ofHex d | throw "bad zlib hex"
+        let o ← match out with
+          | .null => pure none
+          | .str h => match Bytes.ofHex h with
+              | some b => pure (some b)
+              | none => throw "bad zlib out hex"
+          | _ => throw "bad zlib out"
+        return (d, ← jNatOf kk, o)
+      | _ => throw "bad zlib entry"
+    let P := fileParams zl
+    let relocate ← jBool req "relocate"
+    let follow ← jBool req "follow"
+    return Json.mkObj [
+      ("has_cfi", vRes Json.bool (Model.C06.fileHasCFI P 4 none data relocate follow)),
+      ("has_eh", vRes Json.bool (Model.C06.fileHasEHCFI P 4 none data relocate follow)),
+      ("cfi", vRes entriesJson (Model.C06.fileCfiEntries Gen.cfiTables P 4 none data relocate follow)),
+      ("eh", vRes entriesJson (Model.C06.fileEhCfiEntries Gen.cfiTables P 4 none data relocate follow))]
   | "ast" =>
     let sec ← jSection (← req.getObjVal? "sec")
     let data := encodeSection sec
@@ -141,6 +188,29 @@ def handle (req : Json) : Except String Json := do
     let size := (jNat req "size").toOption.getD data.length
     return Json.mkObj [("model", runModel (← jBool req "eh") (← jBool req "le") (← jNat req "asz")
                                   (← jInt req "address") data size)]
+  | "setloc" =>
+    -- an `.eh_frame` instruction list as the LSB encodes it (DW_CFA_set_loc under FDE pointer encoding `enc`): bytes,
+    -- the split the LSB prescribes (opcode bytes), whether it is in the excluded class, the model's split
+    let le ← jBool req "le"; let asz ← jNat req "asz"; let enc ← jNat req "enc"
+    let is ← jInstrs req "ins"
+    let pre ← jHex req "pre"; let rest ← jHex req "rest"
+    let body := Spec.C06.encInstrsEh le asz enc is
+    let data := pre ++ body ++ rest
+    let C := mkCfi true le asz 0 data
+    let m : R (List Model.Instr × Nat) := do
+      let S ← C.structs 32
+      Model.parseInstructions C.T S C.env data (pre.length + body.length) (data.length + 1) pre.length
+    let hasSetLoc := is.any fun i => match i with | .set_loc _ => true | _ => false
+    let widths := is.filterMap fun i => match i with
+      | .set_loc a => some (encPtr le asz (enc % 16) (a : Int)).length
+      | _ => none
+    return Json.mkObj [("bytes", jHexOf data), ("wf", Json.bool (is.all (Cfa.wf asz))),
+                       ("in_class", Json.bool (hasSetLoc && enc != 0)),
+                       ("same_width", Json.bool (widths.all (· == asz))),
+                       ("lsb_opcodes", Json.arr (is.map fun i => jN i.opcode).toArray),
+                       ("dwarf", (Val.list (is.map instrObs)).toJson), ("end", jN (pre.length + body.length)),
+                       ("model", resJson (fun (r : List Model.Instr × Nat) =>
+                          Json.mkObj [("v", (Val.list (r.1.map Model.Instr.toVal)).toJson), ("pos", jN r.2)]) m)]
   | "instrs" =>
     -- an instruction list alone: bytes, the split the property prescribes, the model's split
     let le ← jBool req "le"; let asz ← jNat req "asz"
